@@ -18,6 +18,155 @@ def _key(c, r):
     return "%s;%s;%s" % (c["family"], vp.fingerprint(P), sorted(r["tags"])[0])
 
 
+RANGE_IDX = {"quick": [3, 5, 6], "thorough": [1, 2, 3, 4, 5, 6]}      # anchor indices of spec/RangesOps.Anchor
+PLURAL_TOK = {"quick": ["1", "2"], "thorough": ["0", "1", "2", "11"]}
+ANCHOR_I32 = ["-2147483648", "-1", "0", "1", "5", "2147483647"]
+ENV = {"x": "X1", "y": "Y2"}
+
+
+def _prefix_fk(node, prefix):
+    """`$t(k` -> `$t(<prefix>.k` in every string of a file tree"""
+    t = node["t"]
+    if t == "str":
+        s, o, i = node["s"], [], 0
+        while i < len(s):
+            if s[i:i + 3] == ["DOL", "t", "LP"]:
+                o += ["DOL", "t", "LP"] + list(prefix) + ["DOT"]
+                i += 3
+            else:
+                o.append(s[i])
+                i += 1
+        return {"t": "str", "s": o}
+    if t == "map":
+        return {"t": "map", "e": [[k, _prefix_fk(v, prefix)] for k, v in node["e"]]}
+    if t == "seq":
+        return {"t": "seq", "e": [_prefix_fk(v, prefix) for v in node["e"]]}
+    return node
+
+
+def _calls_for(keys_sig, tier, path_of, locales):
+    """keys_sig: key name -> projected key of the L1 event.  Returns calls + per-call info for the trace."""
+    import itertools
+    import probe
+    calls, info = [], {}
+    for name in sorted(keys_sig):
+        k = keys_sig[name]
+        if k.get("t") != "value":
+            continue
+        vars_ = k.get("vars", {})
+        comps = k.get("comps", [])
+        cvars = sorted(v for v in vars_ if vars_[v]["count"] != "none")
+        choices = []
+        for v in cvars:
+            ty = vars_[v]["count"]
+            if ty == "plural":
+                choices.append([{"ty": "plural", "idx": 0, "tok": t, "sym": list(t)} for t in PLURAL_TOK[tier]])
+            elif ty == "i32":
+                choices.append([{"ty": "i32", "idx": i, "tok": "", "sym": []} for i in RANGE_IDX[tier]])
+            else:
+                choices = None
+                break
+        if choices is None:
+            continue
+        for combo in itertools.product(*choices):
+            counts = dict(zip(cvars, combo))
+            for loc in locales:
+                for flav in ("td_string", "td"):
+                    args = []
+                    for v in sorted(vars_):
+                        if v in counts:
+                            c = counts[v]
+                            lit = (c["tok"] + "u32") if c["ty"] == "plural" else ("(%si32)" % ANCHOR_I32[c["idx"] - 1])
+                            args.append(["var", v, ("move || " + lit) if flav == "td" else lit])
+                        else:
+                            args.append(["var", v, json.dumps(ENV.get(v, v.upper()))])
+                    args += [["comp", c, c] for c in sorted(comps)]
+                    cid = len(calls) + 1
+                    calls.append({"id": cid, "flav": flav, "locale": loc, "path": path_of(name), "args": args})
+                    info[cid] = {"key": name, "locale": loc, "flav": flav, "counts": counts,
+                                 "env": {v: probe.to_syms(ENV.get(v, v.upper())) for v in vars_ if v not in counts}}
+    return calls, info
+
+
+def run_l2(run, cases, l1_trace_path, ngraphs, nfamilies):
+    """generated code: every key of a sample of accepted projects is rendered in every locale; the text must be what
+    substitution (module Subst) says.  Graph projects are packed as subkey groups of one project per 100 graphs."""
+    import os
+    import random
+    import probe
+    rng = random.Random(run.seed)
+    loads = {e["case"]: e for e in vp.read_ndjson(l1_trace_path) if e.get("ev") == "Load"}
+    ok = [c for c in cases if loads.get(c["id"], {}).get("load", {}).get("outcome") == "Ok"]
+    graphs = [c for c in ok if c["family"] == "fk-graph"]
+    fams = [c for c in ok if c["family"] != "fk-graph"]
+    graphs = graphs if len(graphs) <= ngraphs else rng.sample(graphs, ngraphs)
+    first = [c for c in fams if c["family"] != "fk-fallback"]
+    fb = [c for c in fams if c["family"] == "fk-fallback"]
+    fams = first + (fb if len(fb) <= nfamilies else rng.sample(fb, nfamilies))
+    projects, metas = [], []
+    # packed graphs: case index inside the trace = position in `used`
+    used = []
+    PACK = 100
+    for k in range(0, len(graphs), PACK):
+        entries, calls, info = [], [], {}
+        for c in graphs[k:k + PACK]:
+            used.append(c)
+            ci = len(used)
+            g = "g%04d" % ci
+            entries.append([g, _prefix_fk(c["files"][0][1], list(g))])
+            sig = loads[c["id"]]["load"]["units"][0]["keys"]
+            cs, inf = _calls_for(sig, run.tier, lambda name, g=g: [g, name], ["en"])
+            for call in cs:
+                old = call["id"]
+                call["id"] = len(calls) + 1
+                calls.append(call)
+                info[call["id"]] = dict(inf[old], case=ci)
+        projects.append({"name": "c06g%02d" % (len(projects) + 1), "cfg": {"default": "en", "locales": ["en"]},
+                         "files": [["en", {"t": "map", "e": entries}]], "calls": calls})
+        metas.append(info)
+    for c in fams:
+        used.append(c)
+        ci = len(used)
+        sig = loads[c["id"]]["load"]["units"][0]["keys"]
+        calls, inf = _calls_for(sig, run.tier, lambda name: [name], c["cfg"]["locales"])
+        projects.append({"name": "c06f%02d" % (len(projects) + 1), "cfg": c["cfg"], "files": c["files"], "calls": calls})
+        metas.append({i: dict(v, case=ci) for i, v in inf.items()})
+    results, log = probe.build_and_run(run, projects, tag="_c06")
+    trace = []
+    for pi, p in enumerate(projects):
+        r = results[p["name"]]
+        if not r["built"]:
+            run.violation("l2-build;" + p["name"], "a project the parser accepts does not compile", {"build_log": r["build_log"] or log[-3000:]})
+            continue
+        seen = set()
+        for ev in r["events"]:
+            m = metas[pi][ev["call"]]
+            seen.add(ev["call"])
+            trace.append({"ev": "Render", "case": m["case"], "key": m["key"], "locale": m["locale"], "flav": m["flav"], "env": m["env"],
+                          "counts": m["counts"], "outcome": ev["outcome"], "out": probe.to_syms(ev["out"])})
+        if len(seen) != len(p["calls"]):
+            raise vp.ToolError("probe %s printed %d of %d results (rc=%s, %s)" % (p["name"], len(seen), len(p["calls"]), r.get("rc"), r.get("stderr", "")[-300:]))
+    trace.append({"ev": "End"})
+    wd = os.path.join(run.workdir, "l2")
+    os.makedirs(wd, exist_ok=True)
+    tpath, cpath = os.path.join(wd, "trace.ndjson"), os.path.join(wd, "cases.ndjson")
+    vp.write_ndjson(tpath, trace)
+    vp.write_ndjson(cpath, [{"id": i + 1, "abs": c["abs"]} for i, c in enumerate(used)])
+    oracle = plural_oracle(run, LOCS, COUNTS)
+    summary, rejects, _ = vp.trace_validate("Trace_Fk", "Trace_Fk.cfg", wd, tpath, cpath, env={"ORACLE": oracle}, timeout=3600)
+    if summary["consumed"] != summary["events"]:
+        raise vp.ToolError("trace spec consumed %s of %s events" % (summary["consumed"], summary["events"]))
+    run.traces += len(projects)
+    run.events += summary["events"]
+    for rj in rejects:
+        ev = trace[rj["l"] - 1]
+        c = used[ev["case"] - 1]
+        run.violation("l2;%s;%s;key=%s;locale=%s;%s;counts=%s" % (c["family"], vp.fingerprint(c["abs"]["P"]), ev["key"], ev["locale"], ev["flav"],
+                                                                  json.dumps({k: (v["tok"] or v["idx"]) for k, v in ev["counts"].items()}, sort_keys=True)),
+                      "generated code shows %r (%s)" % (vp.text_of(ev["out"]), sorted(rj["tags"])[0]), {"event": ev, "P": c["abs"]["P"]})
+    return len(trace) - 1
+
+
 def gen(run):
     graphs, res = loadfam.gen_cases(run, "MC_Fk", "MC_Fk_%s.cfg" % run.tier, timeout=7200)
     if len(graphs) < 100:
@@ -36,13 +185,17 @@ def check(run):
     run.samples = [{"family": fams[0]["family"], "P": fams[0]["abs"]["P"]}, {"family": "fk-graph", "vals": graphs[len(graphs) // 2]["abs"]["P"]["vals"]}]
     loadfam.replay_load(run, graphs + fams, "Trace_Fk", "Trace_Fk.cfg", build_features=("json", "quote"),
                         variant="json-quote", key_of=_key, trace_env={"ORACLE": oracle})
+    quick = run.tier == "quick"
+    import os
+    run.notes["l2_render_events"] = run_l2(run, graphs + fams, os.path.join(run.workdir, "load", "trace.ndjson"),
+                                           200 if quick else 2000, 4 if quick else 45)
     run.exhaustive = True
     run.notes["graphs"] = len(graphs)
     run.notes["family_cases"] = len(fams)
     run.assumptions = ["exhaustive part: every assignment of 3 keys to value shapes (text, variable, component, reference to any key with an argument choice), cyclic graphs included",
                        "families beyond it: range / plural targets with literal and renamed counts, chains, nested references in arguments, null / absent targets under inherits maps, rejected references",
                        "a reference to a key that is absent (not null) in the referring locale but present in the default may be rejected",
-                       "parser level; rendering by generated code is the L2 check"]
+                       "L2: a seeded sample of the accepted graph projects (packed 100 per crate as subkey groups) and the family projects are compiled with load_locales!() and every key is rendered by td_string! and td! in every locale, with range counts at anchors and plural counts as integer tokens; expected text = RenderX(Resolved(P, locale, key))"]
     return run.finish("all 3-key reference graphs of the bounded shape universe + hand-written families; non-trivial: projects containing at least one reference",
                       {"distinct_nontrivial": len(graphs) + len(fams)})
 
